@@ -44,6 +44,8 @@ type UnsignedChunkReader struct {
 	stash            []byte
 	chunkCounter     int
 	offset           int
+	// done is set once the trailer has been read and verified
+	done bool
 	//TODO: Add debug logging for the reader
 	debug bool
 }
@@ -64,6 +66,13 @@ func NewUnsignedChunkReader(r io.Reader, ct checksumType, debug bool) (*Unsigned
 }
 
 func (ucr *UnsignedChunkReader) Read(p []byte) (int, error) {
+	// A reader keeps answering io.EOF after its end: net/http reads a body of known
+	// length once more to see that it is over. Parsing on reported "malformed chunk
+	// encoding" there, which failed the s3 proxy's upload after the data was sent.
+	if ucr.done {
+		return 0, io.EOF
+	}
+
 	// First read any stashed data
 	if len(ucr.stash) != 0 {
 		n := copy(p, ucr.stash)
@@ -131,6 +140,7 @@ func (ucr *UnsignedChunkReader) Read(p []byte) (int, error) {
 	if _, err := io.Copy(io.Discard, ucr.reader); err != nil {
 		return 0, err
 	}
+	ucr.done = true
 
 	return ucr.offset, io.EOF
 }
